@@ -206,9 +206,104 @@ def answerW (E : WCurve) (isBls : Bool) (ws : List String) : String :=
     | _ => "bad-op"
   | _ => "bad-op"
 
+/-! ### Activations of the EC custom gates -/
+
+def fmtCond : WCurve.Cond → String
+  | .off => "0"
+  | .on => "1"
+  | .neg => "-1"
+
+def fmtAct : WCurve.Cond × WCurve.Act → String
+  | (c, .onCurve _ x y) => s!"oc:{fmtCond c}:{toHex x}:{toHex y}"
+  | (c, .slope _ px py qx qy l) => s!"sl:{fmtCond c}:{toHex px}:{toHex py}:{toHex qx}:{toHex qy}:{toHex l}"
+  | (c, .tangent _ px py l) => s!"tg:{fmtCond c}:{toHex px}:{toHex py}:{toHex l}"
+  | (c, .lamSq _ px qx rx l) => s!"ls:{fmtCond c}:{toHex px}:{toHex qx}:{toHex rx}:{toHex l}"
+
+def fmtActs (l : List (WCurve.Cond × WCurve.Act)) : String :=
+  if l.isEmpty then "-" else ";".intercalate (l.map fmtAct)
+
+def isWitness (s : String) : Bool := s.startsWith "w:"
+
+/-- Activations caused by assigning the inputs (constants cause none). -/
+def inputActs (E : WCurve) (ps : List String) : Option (List (WCurve.Cond × WCurve.Act)) := do
+  let l ← ps.mapM (fun s => do
+    let p ← parseWPt s
+    pure (if isWitness s then E.assignActs p else []))
+  pure l.flatten
+
+def answerActs (E : WCurve) (ws : List String) : String :=
+  match ws with
+  | ["add", p, q] =>
+    match inputActs E [p, q], parseWPt p, parseWPt q with
+    | some ia, some P, some Q => fmtActs (ia ++ E.addActs P Q)
+    | _, _, _ => "bad-op"
+  | ["double", p] =>
+    match inputActs E [p], parseWPt p with
+    | some ia, some P => fmtActs (ia ++ E.doubleActs P)
+    | _, _ => "bad-op"
+  | ["neg", p] =>
+    match inputActs E [p] with
+    | some ia => fmtActs ia
+    | _ => "bad-op"
+  | ["select", _, p, q] =>
+    match inputActs E [p, q] with
+    | some ia => fmtActs ia
+    | _ => "bad-op"
+  | ["assign", p] =>
+    match parseWPt p with
+    | some P => fmtActs (E.assignActs P)
+    | _ => "bad-op"
+  | ["assign_fixed", _] => "-"
+  | ["coords", p] =>
+    match inputActs E [p], parseWPt p with
+    | some ia, some P => fmtActs (ia ++ [(WCurve.Cond.on, WCurve.Act.onCurve 0 P.x P.y)])
+    | _, _ => "bad-op"
+  | _ => "bad-op"
+
+def fmtShape (s : WCurve.Shape) : String := s!"oc={s.oc} sl={s.sl} tg={s.tg} ls={s.ls}"
+
+def nbWitness (ps : List String) : Nat := (ps.filter isWitness).length
+
+/-- every second word of `s1 P1 s2 P2 …` -/
+def termPoints : List String → List String
+  | _ :: p :: rest => p :: termPoints rest
+  | _ => []
+
+def kv (key : String) (w : String) : Option (List Nat) :=
+  if w.startsWith (key ++ "=") then parseNatList? (w.drop (key.length + 1)).toString else none
+
+def answerShape (E : WCurve) (ws : List String) : String :=
+  match ws with
+  | ["mul_const", s, p] =>
+    match parseNat? s with
+    | some s => fmtShape (WCurve.shAssign.scale (nbWitness [p]) + WCurve.shMulByConstant (s % E.r))
+    | none => "bad-op"
+  | "msm" :: n :: rest =>
+    match n.toNat? with
+    | some n =>
+      fmtShape (WCurve.shAssign.scale (nbWitness (termPoints rest)) +
+        E.shMsmBounded (List.replicate n E.scalarBits))
+    | none => "bad-op"
+  | b :: "msm" :: _ :: rest =>
+    match kv "bounds" b with
+    | some bs => fmtShape (WCurve.shAssign.scale (nbWitness (termPoints rest)) + E.shMsmBounded bs)
+    | none => "bad-op"
+  | l :: "msm_bits" :: _ :: rest =>
+    match kv "lens" l with
+    | some ls => fmtShape (WCurve.shAssign.scale (nbWitness (termPoints rest)) + WCurve.shMsmBits ls)
+    | none => "bad-op"
+  | ["subgroup_check", p] =>
+    -- the input, the cofactor root (assigned), `mul_by_constant(h, root)`
+    fmtShape (WCurve.shAssign.scale (nbWitness [p] + 1) + WCurve.shMulByConstant (blsCofactor % E.r))
+  | _ => "bad-op"
+
 def answer (line : String) : String :=
   match words line with
   | "jub" :: ws => answerJub ws
+  | "secp" :: "acts" :: ws => answerActs secp ws
+  | "bls" :: "acts" :: ws => answerActs bls ws
+  | "secp" :: "shape" :: ws => answerShape secp ws
+  | "bls" :: "shape" :: ws => answerShape bls ws
   | "secp" :: ws => answerW secp false ws
   | "bls" :: ws => answerW bls true ws
   | _ => "bad-op"
